@@ -21,7 +21,7 @@ struct UrlCase {
 //               (both repaired to valid UTF-8, nothing rejected)
 //   then the history: count = below(maxops+1), each op: k=u8, setter=k%10,
 //   k>=200 -> raw value raw(96) else structured setter_value.
-inline UrlCase decode_url_case(ByteSource& b, unsigned maxops) {
+inline UrlCase decode_url_case(ByteSource& b, unsigned maxops, bool extended_ops = false) {
   UrlCase c;
   uint8_t b0 = b.u8();
   if (b0 >= 0xE0) {
@@ -39,6 +39,11 @@ inline UrlCase decode_url_case(ByteSource& b, unsigned maxops) {
     uint8_t k = b.u8();
     gen::Op o;
     o.setter = k % 10;
+    if (extended_ops && k >= 180 && k < 200) {  // clear_port/hash/search, copy, reparse
+      o.setter = 10 + (k - 180) % 5;
+      c.ops.push_back(std::move(o));
+      continue;
+    }
     if (k >= 200) o.value = repair_utf8(b.raw(96));
     else o.value = gen::setter_value(b, o.setter);
     c.ops.push_back(std::move(o));
@@ -76,7 +81,7 @@ inline uint64_t hash_case(const UrlCase& c) {
 inline std::string render_case(const UrlCase& c) {
   std::string s = "input=\"" + show(c.input) + "\"";
   s += c.has_base ? " base=\"" + show(c.base) + "\"" : " base=none";
-  for (auto& o : c.ops) s += std::string(" ; set_") + setter_name(o.setter) + "(\"" + show(o.value) + "\")";
+  for (auto& o : c.ops) s += std::string(" ; ") + op_name(o.setter) + (o.setter < 10 ? "(\"" + show(o.value) + "\")" : std::string("()"));
   return s;
 }
 
